@@ -319,6 +319,40 @@ func checkC20(ctx *core.Ctx, rep *core.Report) {
 					cn = sans[len(sans)-1]
 				}
 				run(c18Cert(cn, sans, nb, 0), map[string]bool{"cn-in-san": true, "same-cert": true}, fmt.Sprintf("CN=%q SAN=%q", cn, sans))
+				// list length as an axis of its own: the same names inside a SAN of 3, 5 and 9 entries (compliant fillers
+				// before or after) — slices grown by append have spare capacity at exactly these lengths, and code that
+				// appends to / filters a shared slice behaves differently there
+				for _, total := range []int{3, 5, 9} {
+					if total <= len(sans) || (ctx.Quick() && total == 9 && (i+j)%4 != 0) {
+						continue
+					}
+					var fill []string
+					for k := 0; k < total-len(sans); k++ {
+						fill = append(fill, fmt.Sprintf("f%d.example.com", k))
+					}
+					after := append(append([]string{}, sans...), fill...)
+					before := append(append([]string{}, fill...), sans...)
+					run(c18Cert(cn, after, nb, 0), map[string]bool{"cn-in-san": true, "same-cert": true}, fmt.Sprintf("CN=%q SAN=%q", cn, after))
+					run(c18Cert(cn, before, nb, 0), map[string]bool{"cn-in-san": true, "same-cert": true}, fmt.Sprintf("CN=%q SAN=%q", cn, before))
+				}
+			}
+		}
+	}
+	// … and every list of three names (CN empty / first / last)
+	for i := range dnsAtoms {
+		for j := i; j < len(dnsAtoms); j++ {
+			for k := range dnsAtoms {
+				idx++
+				if !ctx.Mine(idx) {
+					continue
+				}
+				if ctx.Quick() && (i+j+k)%3 != 0 {
+					continue
+				}
+				sans := []string{dnsAtoms[i], dnsAtoms[k], dnsAtoms[j]}
+				for _, cn := range []string{"", sans[0], sans[2]} {
+					run(c18Cert(cn, sans, nb, 0), map[string]bool{"cn-in-san": true, "same-cert": true}, fmt.Sprintf("CN=%q SAN=%q", cn, sans))
+				}
 			}
 		}
 	}
